@@ -1,7 +1,7 @@
 """C07: cell capacity, value ranges and read bounds are enforced."""
 from ..gen import cells as G
 from ..gen import scripts as S
-from ..translate import arith
+from ..translate import arith, bsops
 from .C06 import bline, sline, LEAF_DAG
 
 SPEC = dict(
@@ -26,7 +26,9 @@ SPEC = dict(
                    'over-read return short data (outside the property, recorded in design/C07.md).',
         technique='Lean 4 proof (hand model, invariant by induction over operation histories) + differential correspondence with the library '
                   '+ source-regenerated arithmetic lemmas'),
-    translators=[('tvm_bitarray.py/builder.py capacity tests->Generated/Capacity.lean', arith.regenerator('Capacity'))],
+    translators=[('tvm_bitarray.py/builder.py capacity tests->Generated/Capacity.lean', arith.regenerator('Capacity')),
+                 ('builder.py/tvm_bitarray.py store_* methods->Generated/BuilderOps.lean', bsops.regenerator('BuilderOps')),
+                 ('slice.py/tvm_bitarray.py load_*/preload_* methods->Generated/SliceOps.lean', bsops.regenerator('SliceOps'))],
     design_ref='DESIGN.md §6 C07',
     rule='builder histories at every fill level (0,1,1015..1023 bits x 0..4 refs) mixing fitting, overflowing and out-of-range stores '
          '(ints, var-ints, bits, bytes, refs, maybe-refs, cells, partly consumed slices, addresses, snake strings); each op must succeed iff '
@@ -229,9 +231,49 @@ def src_search(ctx):
     return len(ctx.failures) > n0
 
 
+def src_search_methods(ctx):
+    """Search mode only: the (fill level, operation) points where a regenerated METHOD (Generated/BuilderOps.lean, SliceOps.lean)
+    differs from the hand model it is proved equal to (evaluated by Lean on the validation scripts), replayed as one-operation
+    histories at that fill level / as reads of that size on a slice with that many bits.  True = a concrete failing input was found."""
+    n0 = len(ctx.failures)
+    dag = [tuple(n) for n in bsops.CTX_DAG]
+    cells = G.lib_build(dag)
+    done = set()
+    for (fb, fr, toks), idx in bsops.diff_scripts(ctx, 'B', bsops.builder_scripts()):
+        # the fill level at which the op ran: replay the script up to it on the library
+        for i in idx:
+            k = toks[i].split(':')[0]
+            tok = 'bit:' + toks[i].split(':')[1] if k in ('bool', 'bi') else toks[i]
+            if tok.startswith('bit:') and tok not in ('bit:0', 'bit:1'):
+                continue
+            b = bsops.py_builder(cells, fb, fr, toks[:i]).split('|')
+            ub, ur = (0 if b[1] == '-' else len(b[1])), (0 if b[2] == '-' else b[2].count('.') + 1)
+            if (ub, ur, tok) in done or len(done) > 60:
+                continue
+            done.add((ub, ur, tok))
+            history(ctx, dag, cells, ub, ur, 'src', ops=[tok])
+        if len(ctx.failures) > n0:
+            return True
+    reads = set()
+    for (bits, refs, toks), idx in bsops.diff_scripts(ctx, 'S', bsops.slice_scripts()):
+        for i in idx:
+            p = toks[i].split(':')
+            kind = {'lu': 'lu', 'li': 'li', 'lb': 'lb', 'sk': 'sk', 'lby': 'lby', 'bit': 'bit', 'lbool': 'bit', 'lr': 'lr', 'lmr': 'lmr', 'lvu': 'lvu', 'lc': 'lc'}.get(p[0])
+            if kind is None:
+                continue
+            req = int(p[1]) if len(p) > 1 and kind in ('lu', 'li', 'lb', 'sk', 'lby') else 0
+            for rem in sorted({len(bits), req, max(req - 1, 0), req + 1, req * 8, max(req * 8 - 1, 0)}):
+                if rem <= 1023 and (kind, rem, req) not in reads and len(reads) < 80:
+                    reads.add((kind, rem, req))
+                    overread(ctx, rem, len(refs) % 3, req, kind)
+        if len(ctx.failures) > n0:
+            return True
+    return len(ctx.failures) > n0
+
+
 def run(ctx):
     rng = ctx.rng
-    if ctx.search and src_search(ctx):
+    if ctx.search and (src_search(ctx) or src_search_methods(ctx)):
         return
     for nrefs in range(0, 5):
         for kind in ('lr', 'pr', 'lmr', 'pmr', 'ld'):
